@@ -39,6 +39,10 @@ bool pre(const Op &op);
 // `observed` = value read (load / RMW old value / CAS observed), `written` = value stored.
 void post(const Op &op, uint64_t observed, uint64_t written, bool wrote);
 
+// scheduling point + report for an access to plain (non-atomic) shared data that the instrumentation
+// layer knows about (the pointer field of a weak_ptr, an allocation or deallocation)
+void plain_access(const void *addr, bool write);
+
 // true when the caller is a virtual thread under the scheduler
 bool active();
 // id of the running virtual thread (0..n-1), -1 for the controller
